@@ -5,6 +5,7 @@ package c05
 import (
 	"bufio"
 	"crypto/tls"
+	"crypto/x509"
 	"fmt"
 	"io"
 	"net"
@@ -38,6 +39,10 @@ type Case struct {
 	SNI         bool    `json:"sni"`
 	PlainInside bool    `json:"plain_inside,omitempty"` // no TLS handshake inside the CONNECT tunnel
 	Inner       []Inner `json:"inner"`
+	// RewriteConnect: the request modifier re-targets the CONNECT (as
+	// martianurl.Modifier does): the tunnel goes to another upstream, but the
+	// certificate presented to the client is still for the host the client named.
+	RewriteConnect bool `json:"rewrite_connect,omitempty"`
 }
 
 const authority = "secure.test:443"
@@ -50,18 +55,27 @@ type seen struct {
 	host      string
 	secure    bool
 	hasTLS    bool
+	tlsDone   bool
+	tlsSNI    string
 	sess      *martian.Session
 	hijackErr error
 }
 
 type probe struct {
-	mu    sync.Mutex
-	calls []seen
+	mu      sync.Mutex
+	calls   []seen
+	rewrite bool
 }
 
 func (p *probe) ModifyRequest(req *http.Request) error {
 	ctx := martian.NewContext(req)
 	s := seen{id: req.Header.Get("X-Verif-Id"), method: req.Method, scheme: req.URL.Scheme, urlHost: req.URL.Host, host: req.Host, hasTLS: req.TLS != nil}
+	if req.TLS != nil {
+		s.tlsDone, s.tlsSNI = req.TLS.HandshakeComplete, req.TLS.ServerName
+	}
+	if p.rewrite && req.Method == "CONNECT" {
+		req.URL.Host = "rewritten.test:443"
+	}
 	if ctx != nil {
 		s.sess = ctx.Session()
 		s.secure = s.sess.IsSecure()
@@ -133,7 +147,7 @@ func runOnce(c Case, T time.Duration) (v kit.Verdict) {
 			return netkit.Script{Raw: []byte(fmt.Sprintf("HTTP/1.1 200 OK\r\nContent-Length: %d\r\n\r\n%s", len(body), body)), CutAt: -1}
 		}
 	}
-	tlsOrigin := netkit.NewTLSOrigin(netkit.ServerTLS("secure.test", "other.test"), mk(true))
+	tlsOrigin := netkit.NewTLSOrigin(netkit.ServerTLS("secure.test", "other.test", "rewritten.test"), mk(true))
 	defer tlsOrigin.Close()
 	clearOrigin := netkit.NewOrigin(mk(false))
 	defer clearOrigin.Close()
@@ -156,7 +170,7 @@ func runOnce(c Case, T time.Duration) (v kit.Verdict) {
 	if err != nil {
 		return kit.Failf("C05/harness/mitm", "%v", err)
 	}
-	pb := &probe{}
+	pb := &probe{rewrite: c.RewriteConnect}
 	p := martian.NewProxy()
 	p.SetTimeout(60 * time.Second)
 	netkit.UpstreamTLS(p)
@@ -184,7 +198,17 @@ func runOnce(c Case, T time.Duration) (v kit.Verdict) {
 	tlsConf := &tls.Config{RootCAs: pool, ServerName: "secure.test"}
 	if !c.SNI {
 		// no SNI: the certificate is checked by hand against the CONNECT authority
-		tlsConf = &tls.Config{InsecureSkipVerify: true}
+		tlsConf = &tls.Config{InsecureSkipVerify: true, VerifyPeerCertificate: func(raw [][]byte, _ [][]*x509.Certificate) error {
+			if len(raw) == 0 {
+				return fmt.Errorf("no certificate presented")
+			}
+			leaf, err := x509.ParseCertificate(raw[0])
+			if err != nil {
+				return err
+			}
+			_, err = leaf.Verify(x509.VerifyOptions{Roots: pool, DNSName: "secure.test"})
+			return err
+		}}
 	}
 	upgrade := func() bool {
 		tc := tls.Client(raw, tlsConf)
@@ -374,6 +398,8 @@ func runOnce(c Case, T time.Duration) (v kit.Verdict) {
 			}
 			if !got.hasTLS {
 				v.Addf(pre+"tls-state-missing", "request %s (number %d on the decrypted connection): req.TLS is nil", s.id, i+1)
+			} else if !got.tlsDone || (c.SNI && got.tlsSNI != "secure.test") {
+				v.Addf(pre+"tls-state-not-the-connections", "request %s (number %d on the decrypted connection): req.TLS is not the negotiated state of the connection (HandshakeComplete=%v, ServerName=%q, client sent SNI %v)", s.id, i+1, got.tlsDone, got.tlsSNI, c.SNI)
 			}
 			if got.urlHost != s.wantHost {
 				v.Addf(pre+"wrong-host", "request %s: modifier saw URL host %q, want %q (own authority, or the tunnel's when none is given)", s.id, got.urlHost, s.wantHost)
@@ -428,6 +454,9 @@ func genCase(t *rapid.T) Case {
 	} else if rapid.IntRange(0, 7).Draw(t, "plain_inside") == 0 {
 		c.PlainInside = true
 	}
+	if c.Listener != "transparent" && !c.PlainInside && rapid.IntRange(0, 4).Draw(t, "rewrite") == 0 {
+		c.RewriteConnect = true
+	}
 	n := rapid.IntRange(2, 5).Draw(t, "n")
 	if rapid.IntRange(0, 9).Draw(t, "single") == 0 {
 		n = 1
@@ -436,6 +465,10 @@ func genCase(t *rapid.T) Case {
 		forms := []string{"origin", "origin", "nohost", "abs-http", "abs-https"}
 		if c.PlainInside {
 			forms = []string{"origin"}
+		}
+		if c.RewriteConnect {
+			// which authority a Host-less request falls back to after a rewrite is not defined by the statement
+			forms = []string{"origin", "origin", "abs-http", "abs-https"}
 		}
 		if c.Listener == "transparent" {
 			// no CONNECT, hence no tunnel authority to fall back on
@@ -475,6 +508,9 @@ func classes(c Case) []string {
 	}
 	if !c.SNI {
 		out = append(out, "no-sni")
+	}
+	if c.RewriteConnect {
+		out = append(out, "connect-rewritten-by-modifier")
 	}
 	set := map[string]bool{}
 	for _, in := range c.Inner {
